@@ -159,20 +159,24 @@ def facts(repo):
 
 
 HEADER = """/-
-  GENERATED by harness/extract.py from the repository under test — do not edit.
+  GENERATED by harness/%s.py from the repository under test — do not edit.
   Regenerated on every check run; theorems that depend on these facts are re-checked by `lake build`.
 -/
-namespace Cubed.Generated
+namespace Cubed.%s
 
 """
 
 
-def generate(repo):
-    fs = facts(repo)
-    lines = [HEADER]
-    for name, (typ, val, prov) in fs.items():
-        lines.append(f"/-- from {prov} -/\ndef {name} : {typ} := {val}\n")
-    lines.append("end Cubed.Generated\n")
+def generate(repo, mod=None, name="Generated"):
+    """Lean text for the facts of `mod` (this module by default; plug-ins are harness/extract_cNN.py
+    exposing `facts(repo) -> {name: (lean type, lean value, provenance)}` and may use the helpers here)."""
+    import sys
+    mod = mod or sys.modules[__name__]
+    fs = mod.facts(repo)
+    lines = [HEADER % (mod.__name__, name)]
+    for fname, (typ, val, prov) in fs.items():
+        lines.append(f"/-- from {prov} -/\ndef {fname} : {typ} := {val}\n")
+    lines.append(f"end Cubed.{name}\n")
     return "\n".join(lines)
 
 
